@@ -284,6 +284,22 @@ def gen_cases(rng, tier):
                 else:
                     m, lab = g.mutate_fields(rng, recs)
             add('bam', hdr + g.join(m), lab, omit=rng.choice([0, 0, 0, 1, 2]), rd=1)
+    # every degenerate aux tag at the very end of the aux block, where the block ends exactly at the
+    # capacity of the buffer: private buffer of a record > 4096 bytes, and shared buffer with an aux
+    # block whose length is an allocation size class (slice expressions check capacity, not length)
+    brefs = [(b'chr0', 2**29)]
+    bhdr = g.join(g.bam_header_fields(b'@SQ\tSN:chr0\tLN:536870912\n', brefs))
+    for k, bad in enumerate(g.AUX_BAD):
+        for big in (True, False):
+            fsr = [f for f in g.bam_record_fields(rng, 1, big=big) if f.kind != 'aux']
+            pad = b''
+            if not big:
+                for n in range(0, 40):
+                    if (4 * n + len(bad)) in (8, 16, 24, 32, 48, 64, 80, 96, 112, 128):
+                        pad = b'XAAq' * n
+                        break
+            fsr += [g.F('auxpad', pad, 'aux'), g.F('auxbad', bad, 'aux')]
+            add('bam', bhdr + g.join(g.fix_block_size(fsr)), 'auxbad-at-capacity', omit=0, rd=1)
     for s in g.crashers(os.path.join(core.REPO, 'bam', 'bam_test.go')):
         add('bam', s, 'crasher', rd=1)
     # BGZF
@@ -389,6 +405,9 @@ def run(res, rng, tier):
                 'non-trivial = the decoder got past its first check (value returned, or an error other than magic/field-count/EOF); distinct by (decoder, input)')
     pick = [i for i, o in enumerate(obs) if o.get('cls') == 'ok'][:2] + [i for i, o in enumerate(obs) if o.get('cls') == 'err'][:2] + [len(obs) - 1]
     res.samples = [dict(case=cases[i], observed=slim(obs[i])) for i in pick]
+    res.notes.append('partial: cram_block_value_safe_partial excludes slice header blocks; Container.readFrom / Slice.readFrom (LTF-8), value safety of '
+                     'ParseAux results, UnmarshalSAM as a whole, fai.NewIndex and the BGZF reader have no theorem: correspondence and/or fuzz only')
+    res.notes.append('the fuzz part is a test: %d decoder runs, %d of them not judged (memory guard)' % (res.evaluations, memguard))
     res.trusted = TRUSTED
     res.assumptions = ASSUME
 
